@@ -19,6 +19,22 @@ type inProcessTransport struct {
 }
 
 func (t *inProcessTransport) Close() error {
+	t.markClosed()
+	t.remote.markClosed()
+
+	// The owner of this end will not receive anymore: drop what is still queued
+	// for it. The peer, in contrast, still gets what was sent to it before the
+	// close (Connected keeps reporting that), like on a network connection.
+	for {
+		select {
+		case <-t.envChan:
+		default:
+			return nil
+		}
+	}
+}
+
+func (t *inProcessTransport) markClosed() {
 	t.mu.Lock()
 	defer t.mu.Unlock()
 
@@ -27,17 +43,10 @@ func (t *inProcessTransport) Close() error {
 		t.done <- true
 		close(t.closing)
 	}
-
-	if !t.remote.closed {
-		// We are not closing the envChan here to avoid panics on Send method
-		return t.remote.Close()
-	}
-
-	return nil
 }
 
 func (t *inProcessTransport) Send(ctx context.Context, e envelope) error {
-	if !t.Connected() {
+	if t.isClosed() {
 		return errors.New("transport is closed")
 	}
 	select {
@@ -51,13 +60,25 @@ func (t *inProcessTransport) Send(ctx context.Context, e envelope) error {
 }
 
 func (t *inProcessTransport) Receive(ctx context.Context) (envelope, error) {
-	if !t.Connected() {
+	// Like a network connection, deliver what the peer had sent before the close.
+	closed := t.isClosed()
+	select {
+	case e := <-t.envChan:
+		return e, nil
+	default:
+	}
+	if closed {
 		return nil, errors.New("transport is closed")
 	}
 	select {
 	case <-ctx.Done():
 		return nil, fmt.Errorf("receive: %w", ctx.Err())
 	case <-t.done:
+		select {
+		case e := <-t.envChan:
+			return e, nil
+		default:
+		}
 		return nil, errors.New("transport was closed while receiving")
 	case e := <-t.envChan:
 		return e, nil
@@ -108,7 +129,14 @@ func (t *inProcessTransport) SetEncryption(context.Context, SessionEncryption) e
 func (t *inProcessTransport) Connected() bool {
 	t.mu.RLock()
 	defer t.mu.RUnlock()
-	return !t.closed
+	// envelopes queued by the peer before the close are still to be received
+	return !t.closed || len(t.envChan) > 0
+}
+
+func (t *inProcessTransport) isClosed() bool {
+	t.mu.RLock()
+	defer t.mu.RUnlock()
+	return t.closed
 }
 
 func (t *inProcessTransport) LocalAddr() net.Addr {
